@@ -49,6 +49,13 @@ def main():
     for k in (2, 3, 5):
         lps.append(degenerate(ck.rng, k, name="dg%d" % k))
     lps.append(beale())
+    # entries / costs below the tolerances of the floating-point stages in shapes that scaling cannot repair
+    for k_ in ((30, 35, 40, 45, 50, 60, 80, 120) if ck.thorough() else (35, 40, 60)):
+        for r_ in range(2):
+            lps.append(tiny_pivot(ck.rng, k_, name="tp%d_%d" % (k_, r_)))
+    for k_ in ((6, 7, 8, 9, 10, 12, 15, 20, 30) if ck.thorough() else (7, 9, 12, 20)):
+        for r_ in range(4 if ck.thorough() else 2):
+            lps.append(tiny_cost(ck.rng, k_, name="tk%d_%d" % (k_, r_)))
     cases, meta = [], {}
     for li, lp in enumerate(lps):
         for ci, e in enumerate(("EXACT P", "EXACT D")):
